@@ -166,6 +166,32 @@ theorem list_exact (g : BuildGraph) (s : Selector) (h : Host) :
     have hboth := List.pairwise_and_iff.mpr ⟨hsorted, hnd⟩
     exact List.Pairwise.imp (fun ⟨h1, h2⟩ => bytesLt_of_le_of_ne _ _ h1 h2) hboth
 
+/-- distinct labels with colon-free package paths (directory names) print distinctly -/
+theorem printedDistinct_of_labels (g : BuildGraph)
+    (hcolon : ∀ (i : Nat) (n : Node), g.nodes[i]? = some n → cColon ∉ n.label.pkg)
+    (hdist : ∀ (i j : Nat) (ni nj : Node), g.nodes[i]? = some ni → g.nodes[j]? = some nj → ni.label = nj.label → i = j) :
+    PrintedDistinct g := by
+  intro i j ni nj hi hj h
+  exact hdist i j ni nj hi hj (toBytes_inj _ _ (hcolon i ni hi) (hcolon j nj hj) h)
+
+/-- The inverse law at the level of the printed lines (`--target-type=all`, no tag filters,
+    `--all-platforms`): the label of `a` is printed by `deps -t b` iff the label of `b` is printed by
+    `rdeps -t a`. -/
+theorem inverse_printed (g : BuildGraph) (plat : Bytes) (hd : PrintedDistinct g) (a b : Nat) (na nb : Node)
+    (ha : g.nodes[a]? = some na) (hb : g.nodes[b]? = some nb) :
+    na.label.toBytes ∈ depsCmd g (querySelector [] [] .all) ⟨plat, true⟩ true b ↔
+    nb.label.toBytes ∈ rdepsCmd g (querySelector [] [] .all) ⟨plat, true⟩ true a := by
+  rw [(deps_exact g _ _ true b).2, (rdeps_exact g _ _ true a).2]
+  constructor
+  · rintro ⟨i, hdep, _, n, hn, heq⟩
+    have : a = i := hd a i na n ha hn heq
+    subst this
+    exact ⟨b, hdep, matchAt_trivial g plat b nb hb, nb, hb, rfl⟩
+  · rintro ⟨i, hdep, _, n, hn, heq⟩
+    have : b = i := hd b i nb n hb hn heq
+    subst this
+    exact ⟨a, hdep, matchAt_trivial g plat a na ha, na, ha, rfl⟩
+
 /-- `edit_predicts`, full statement: after editing file `f`, the targets a build re-executes are a subset
     of `owners f` and their transitive rdeps. `reexec` is an observation of the real build (or of the build
     model of C02); it is not defined in this group. -/
